@@ -1,9 +1,403 @@
 /-
 C17 — Outgoing streams are whole packets; each publisher's messages stay in order.
-(theorems under construction)
+
+"The byte stream the library writes to any connection is always a sequence of
+complete, well-formed MQTT packets, even when many goroutines deliver to the
+same connection at once; and the messages one publisher sends on one topic at
+one QoS level reach every subscriber of that topic in the order they were
+published."
+
+Property theorems only (helper lemmas: `Proofs/WriteLock.lean`,
+`Proofs/BrokerOrder.lean`).
+
+Part 1 (whole packets) is about `Model/WriteLock.lean`: `service.writeMessage`
+as a small-step program run by any number of goroutines against one
+connection.  All theorems quantify over *every* number of threads, every list
+of packets per thread (`todos`) and every schedule (`sched : List Nat`, any
+length; a choice that is not enabled is skipped).  A packet is an opaque byte
+string here: that `Encode` produces a well-formed packet of exactly the
+announced length is the codec's property (C03); what is proved here is that
+the stream is the concatenation of those byte strings, whole and in commit order.
+
+Part 2 (per-publisher order, section 4) is about the sequential broker model
+`Model/Broker.lean`, for *all* broker states satisfying the representation
+invariant `BInv` (C02: holds initially, preserved by every event), all
+connection identifiers, packets and event histories.
 -/
-import Mqtt.Model.WriteLock
-import Mqtt.Model.Broker
+import Mqtt.Proofs.WriteLock
+import Mqtt.Proofs.BrokerOrder
 
 namespace Mqtt.Properties.C17
+
+open Mqtt.Model.WriteLock Mqtt.Proofs.WriteLock
+
+/-! ## 1. Whole packets under `wmu` (any number of concurrent writers) -/
+
+/-- **C17 (a).**  In every reachable state of the program as it is (`locked =
+true`) the consumer-visible stream `buf[0, pseq)` is exactly the concatenation of
+the committed packets, whole, in commit order; and there is a commit log
+(thread, packet) — the packets of the log are `s.done`, every entry belongs to
+an existing thread, and for every thread the packets it committed, in commit
+order, followed by the packets it still has to deliver, are the list it was
+given.  So no packet is torn, lost, duplicated or invented, and each writer's
+packets keep their order. -/
+theorem C17_packets_atomic (todos : List (List (List UInt8))) (sched : List Nat) :
+    let s := run true (init todos) sched
+    visible s = s.done.flatten ∧
+    ∃ log : List (Nat × List UInt8),
+      log.map (·.2) = s.done ∧
+      (∀ e ∈ log, e.1 < todos.length) ∧
+      s.ths.length = todos.length ∧
+      ∀ t th, s.ths[t]? = some th → todos[t]? = some (fromThread log t ++ th.todo) := by
+  intro s
+  obtain ⟨log, h⟩ := inv_reachable todos sched
+  refine ⟨?_, log, h.logd, h.logt, h.len, h.prov⟩
+  show s.buf.take s.pseq = s.done.flatten
+  exact h.vis
+
+/-- Mutual exclusion and the shape of the critical section.  In every reachable
+state of the locked program a thread inside `writeMessage` is the holder of
+`wmu` and has a packet in hand, every other thread is outside; from the
+reservation on its `start` *is* the producer cursor (so it makes no difference
+that `WriteCommit`/`Write` re-read the cursor instead of using the value
+`WriteWait` returned), and after `Encode` the bytes at the cursor are the packet
+in hand. -/
+theorem C17_critical_section (todos : List (List (List UInt8))) (sched : List Nat) :
+    let s := run true (init todos) sched
+    ∀ t th, s.ths[t]? = some th → th.pc ≠ .idle →
+      s.holder = some t ∧ th.todo ≠ [] ∧
+      (∀ u thu, s.ths[u]? = some thu → u ≠ t → thu.pc = .idle) ∧
+      (th.pc = .reserved ∨ th.pc = .encoded → th.start = s.pseq) ∧
+      (th.pc = .encoded → ∀ m rest, th.todo = m :: rest → (s.buf.drop s.pseq).take m.length = m) := by
+  intro s t th hth hne
+  obtain ⟨log, h⟩ := inv_reachable todos sched
+  have hok := h.ths t th hth
+  refine ⟨hok.holder hne, hok.work hne, fun u thu hu hut => h.others_idle (hok.holder hne) hu hut,
+    hok.start, ?_⟩
+  intro hpc m rest htd
+  rw [← hok.start (Or.inr hpc)]
+  exact hok.bytes hpc m rest htd
+
+/-- Every packet in the stream is one of the packets some writer was given. -/
+theorem C17_packets_whole (todos : List (List (List UInt8))) (sched : List Nat) :
+    let s := run true (init todos) sched
+    ∀ p ∈ s.done, ∃ l ∈ todos, p ∈ l := by
+  intro s p hp
+  obtain ⟨log, h⟩ := inv_reachable todos sched
+  have hp' : p ∈ log.map (·.2) := by rw [h.logd]; exact hp
+  obtain ⟨⟨t, q⟩, he, hq⟩ := List.mem_map.mp hp'
+  simp only at hq; subst hq
+  have ht : t < s.ths.length := by rw [h.len]; exact h.logt _ he
+  have hth : s.ths[t]? = some s.ths[t] := List.getElem?_eq_getElem ht
+  have := h.prov t _ hth
+  refine ⟨_, List.mem_of_getElem? this, ?_⟩
+  apply List.mem_append_left
+  simp only [fromThread, List.mem_map, List.mem_filter]
+  exact ⟨(t, q), ⟨he, by simp⟩, rfl⟩
+
+/-- When every writer has finished, the stream is a merge of the writers' lists:
+the packets of thread `t` in the commit log are exactly `t`'s list, in order. -/
+theorem C17_packets_complete (todos : List (List (List UInt8))) (sched : List Nat) :
+    let s := run true (init todos) sched
+    (∀ th ∈ s.ths, th.todo = []) →
+    visible s = s.done.flatten ∧
+    ∃ log : List (Nat × List UInt8),
+      log.map (·.2) = s.done ∧ (∀ e ∈ log, e.1 < todos.length) ∧
+      ∀ t l, todos[t]? = some l → fromThread log t = l := by
+  intro s hall
+  obtain ⟨hv, log, h1, h2, h3, h4⟩ := C17_packets_atomic todos sched
+  refine ⟨hv, log, h1, h2, ?_⟩
+  intro t l hl
+  have ht : t < s.ths.length := by rw [h3]; exact lt_of_getElem? hl
+  have hth : s.ths[t]? = some s.ths[t] := List.getElem?_eq_getElem ht
+  have := h4 t _ hth
+  rw [hall _ (List.getElem_mem ht), List.append_nil, hl] at this
+  exact (Option.some.inj this).symm
+
+/-! Non-vacuity: three writers, interleaved, everything delivered. -/
+
+example :
+    let s := run true (init [[[1, 2], [3]], [[4, 5, 6]], [[7]]])
+      [0, 1, 2, 0, 0, 0, 2, 1, 2, 2, 2, 1, 0, 1, 1, 1, 0, 0, 0, 0]
+    s.done = [[1, 2], [7], [4, 5, 6], [3]] ∧ visible s = [1, 2, 7, 4, 5, 6, 3] ∧
+    s.ths.all (fun th => th.todo.isEmpty) = true := by decide
+
+/-- a writer blocked on `wmu` is skipped, not lost -/
+example :
+    let s := run true (init [[[1]], [[2]]]) [0, 1, 1, 1, 0, 0, 0, 1, 1, 1, 1]
+    s.done = [[1], [2]] ∧ visible s = [1, 2] := by decide
+
+/-! ## 2. The mutex is necessary -/
+
+/-- **C17 (b).**  The same program without `wmu` (`locked = false`): two
+writers, one one-byte packet each.  Both read the cursor before either commits,
+so both reserve `[0, 1)`; the second `Encode` overwrites the first packet and
+the second commit leaves the cursor where the first put it.  Two packets were
+committed, the consumer sees one byte: the stream is not the concatenation of
+the committed packets. -/
+theorem C17_unlocked_counterexample :
+    let s := run false (init [[[1]], [[2]]]) [0, 1, 0, 1, 0, 1, 0, 1]
+    s.done = [[1], [2]] ∧ visible s = [2] ∧ visible s ≠ s.done.flatten := by decide
+
+/-- the same schedule under the lock (thread 1 is refused until thread 0 has
+committed) delivers both packets -/
+example :
+    let s := run true (init [[[1]], [[2]]]) [0, 1, 0, 1, 0, 1, 0, 1, 1, 1, 1]
+    s.done = [[1], [2]] ∧ visible s = [1, 2] := by decide
+
+/-- without the lock a packet can also be torn: the one committed packet is
+`[1, 2, 3]`, the consumer sees its first byte replaced by the other writer's -/
+example :
+    let s := run false (init [[[1, 2, 3]], [[9]]]) [0, 1, 0, 1, 0, 1, 0]
+    s.done = [[1, 2, 3]] ∧ visible s = [9, 2, 3] := by decide
+
+/-! ## 3. No deadlock inside `writeMessage` -/
+
+/-- **C17 (c).**  In every reachable state of the locked program: the holder of
+`wmu` is enabled (it never waits for anything inside the critical section);
+when `wmu` is free every thread that still has a packet is enabled; hence as
+long as any thread has a packet left, some thread can move. -/
+theorem C17_progress (todos : List (List (List UInt8))) (sched : List Nat) :
+    let s := run true (init todos) sched
+    (∀ t, s.holder = some t → (step true s t).isSome = true) ∧
+    (s.holder = none → ∀ t th, s.ths[t]? = some th → th.todo ≠ [] → (step true s t).isSome = true) ∧
+    ((∃ th ∈ s.ths, th.todo ≠ []) → ∃ t, (step true s t).isSome = true) := by
+  intro s
+  obtain ⟨log, h⟩ := inv_reachable todos sched
+  refine ⟨fun t ht => holder_enabled h ht, fun hn t th hth hw => free_enabled h hn hth hw, ?_⟩
+  rintro ⟨th, hm, hw⟩
+  cases hh : s.holder with
+  | some t => exact ⟨t, holder_enabled h hh⟩
+  | none =>
+    obtain ⟨t, ht, rfl⟩ := List.getElem_of_mem hm
+    exact ⟨t, free_enabled h hh (List.getElem?_eq_getElem ht) hw⟩
+
+/-- A state in which no thread can move has delivered everything: every
+writer's list, whole and in order, is in the stream. -/
+theorem C17_quiescent_delivered (todos : List (List (List UInt8))) (sched : List Nat) :
+    let s := run true (init todos) sched
+    (∀ t, step true s t = none) →
+    (∀ th ∈ s.ths, th.todo = []) ∧ visible s = s.done.flatten ∧
+    ∃ log : List (Nat × List UInt8),
+      log.map (·.2) = s.done ∧ (∀ e ∈ log, e.1 < todos.length) ∧
+      ∀ t l, todos[t]? = some l → fromThread log t = l := by
+  intro s hq
+  have hall : ∀ th ∈ s.ths, th.todo = [] := by
+    intro th hm
+    cases htd : th.todo with
+    | nil => rfl
+    | cons m rest =>
+      obtain ⟨t, ht⟩ := (C17_progress todos sched).2.2 ⟨th, hm, by rw [htd]; exact List.cons_ne_nil _ _⟩
+      have ht' : (step true s t).isSome = true := ht
+      rw [hq t] at ht'; cases ht'
+  exact ⟨hall, C17_packets_complete todos sched hall⟩
+
+/-- Termination measure: `work s` = number of own steps the threads still have
+to take (four per packet).  Every enabled step lowers it by exactly one, it
+starts at four times the number of packets, and it is zero only when every list
+is empty — so every schedule that keeps choosing enabled threads (one exists
+by `C17_progress`) delivers everything in exactly `4 · #packets` steps. -/
+theorem C17_progress_measure (todos : List (List (List UInt8))) (sched : List Nat) :
+    let s := run true (init todos) sched
+    (∀ t s', step true s t = some s' → work s' + 1 = work s) ∧
+    work (init todos) = 4 * (todos.map List.length).sum ∧
+    (work s = 0 → ∀ th ∈ s.ths, th.todo = []) := by
+  intro s
+  obtain ⟨log, h⟩ := inv_reachable todos sched
+  exact ⟨fun t s' hs => work_step h hs, work_init todos, work_zero h⟩
+
+/-- blocked entry is the only disabled choice while work remains: here thread 1
+is refused while thread 0 holds `wmu`, thread 0 is enabled -/
+example :
+    let s := run true (init [[[1]], [[2]]]) [0, 0]
+    s.holder = some 0 ∧ step true s 1 = none ∧ (step true s 0).isSome = true ∧ work s = 6 := by decide
+
+/-! ## 4. Per-publisher order on the broker model
+
+`stream d b evs` — the PUBLISH packets written to connection `d` while the
+broker, started in `b`, processes the events `evs`, in the order written
+(`pubsTo d os`: the PUBLISH packets among the outputs `os` addressed to `d`). -/
+
+section order
+open Mqtt.Iface.Broker Mqtt.Model.Broker Mqtt.Proofs.BrokerQos Mqtt.Proofs.BrokerOrder
+
+/-- `run` yields one output list per event — the `i`-th is the output of the
+`i`-th event in the state the first `i` events lead to — and the stream of
+PUBLISH packets to `d` is the concatenation over the events, in event order, of
+each event's sends to `d`; a history processed in two parts gives the two
+streams one after the other. -/
+theorem C17_stream_per_event (b : B) (d : Nat) (evs : List Ev) :
+    (run b evs).2.length = evs.length ∧
+    (∀ i, (run b evs).2[i]? = evs[i]?.map (fun e => (step (run b (evs.take i)).1 e).2)) ∧
+    stream d b evs = ((run b evs).2.map (pubsTo d)).flatten ∧
+    (∀ e1 e2, evs = e1 ++ e2 → stream d b evs = stream d b e1 ++ stream d (run b e1).1 e2) :=
+  ⟨run_length b evs, run_getElem b evs, stream_eq_flatten d b evs,
+   fun e1 e2 h => by rw [h]; exact stream_append d b e1 e2⟩
+
+/-- **C17 (d), QoS 0 and QoS 1.**  Publisher connection `c` sends PUBLISH `p1`
+and later PUBLISH `p2`, each at QoS 0 or 1, each on a live connection; anything
+may happen before, in between (`mid`) and after, on any connection.  Then the
+stream of `d` is
+
+    (stream before) ++ D1 ++ (stream during `mid`) ++ D2 ++ (stream after)
+
+where `D1`/`D2` are what `onPublish` writes to `d` for `p1`/`p2` in the state
+each arrives in: each message is delivered within its own event, so every copy
+of `p1` precedes every copy of `p2`; every packet of `D1` carries the topic and
+payload of `p1`, every packet of `D2` those of `p2`; and if `d` is a live
+connection which the subscriber lookup returns for the message's topic and QoS
+when it arrives (topic name not empty), the message is delivered (`Di ≠ []`).
+(The statement does not need `p1` and `p2` to share topic or QoS: at QoS 0/1
+one publisher's messages stay in order across topics too.) -/
+theorem C17_publisher_order (b : B) (hI : BInv b) (c d : Nat) (p1 p2 : Pub) (pre mid post : List Ev)
+    (hqos1 : p1.qos = 0 ∨ p1.qos = 1) (hqos2 : p2.qos = 0 ∨ p2.qos = 1) :
+    let b1  := (run b pre).1                              -- state in which p1 arrives
+    let b1' := (step b1 (.packet c (.publish p1))).1
+    let b2  := (run b1' mid).1                            -- state in which p2 arrives
+    let b2' := (step b2 (.packet c (.publish p2))).1
+    let D1  := pubsTo d (onPublish b1 ⟨p1, false⟩).2.2.1
+    let D2  := pubsTo d (onPublish b2 ⟨p2, false⟩).2.2.1
+    ∀ (_hpub1 : b1.alive c = true) (_hpub2 : b2.alive c = true),
+    stream d b (pre ++ .packet c (.publish p1) :: (mid ++ .packet c (.publish p2) :: post)) =
+      stream d b pre ++ (D1 ++ (stream d b1' mid ++ (D2 ++ stream d b2' post))) ∧
+    (∀ w ∈ D1, w.topic = p1.topic ∧ w.payload = p1.payload) ∧
+    (∀ w ∈ D2, w.topic = p2.topic ∧ w.payload = p2.payload) ∧
+    (d < cbBase → b1.alive d = true → p1.topic ≠ [] → Subscribed b1 d p1.topic p1.qos → D1 ≠ []) ∧
+    (d < cbBase → b2.alive d = true → p2.topic ≠ [] → Subscribed b2 d p2.topic p2.qos → D2 ≠ []) := by
+  intro b1 b1' b2 b2' D1 D2 hpub1 hpub2
+  have hI1 : BInv b1 := run_inv hI pre
+  have hI1' : BInv b1' := step_inv hI1 _
+  have hI2 : BInv b2 := run_inv hI1' mid
+  refine ⟨?_, ?_, ?_, ?_, ?_⟩
+  · rw [stream_two, (publish01_step hI1 hpub1 p1 hqos1 d).2]
+    show _ ++ (_ ++ (_ ++ (pubsTo d (step b2 _).2 ++ _))) = _
+    rw [(publish01_step hI2 hpub2 p2 hqos2 d).2]
+  · intro w hw; exact onPublish_content b1 ⟨p1, false⟩ d w (mem_pubsTo.mp hw)
+  · intro w hw; exact onPublish_content b2 ⟨p2, false⟩ d w (mem_pubsTo.mp hw)
+  · intro hd ha ht hs; exact onPublish_delivers b1 ⟨p1, false⟩ d hd ha ht hs
+  · intro hd ha ht hs; exact onPublish_delivers b2 ⟨p2, false⟩ d hd ha ht hs
+
+/-- … in "precedes" form: if `d` is alive and subscribed both times, the stream
+of `d` contains a packet with `p1`'s topic and payload and, later, one with
+`p2`'s. -/
+theorem C17_publisher_order_precedes (b : B) (hI : BInv b) (c d : Nat) (p1 p2 : Pub) (pre mid post : List Ev)
+    (hqos1 : p1.qos = 0 ∨ p1.qos = 1) (hqos2 : p2.qos = 0 ∨ p2.qos = 1)
+    (hconn : d < cbBase) (htopic1 : p1.topic ≠ []) (htopic2 : p2.topic ≠ []) :
+    let b1 := (run b pre).1
+    let b2 := (run (step b1 (.packet c (.publish p1))).1 mid).1
+    ∀ (_hpub1 : b1.alive c = true) (_hpub2 : b2.alive c = true)
+      (_halive1 : b1.alive d = true) (_halive2 : b2.alive d = true)
+      (_hsub1 : Subscribed b1 d p1.topic p1.qos) (_hsub2 : Subscribed b2 d p2.topic p2.qos),
+    ∃ A w1 M w2 P,
+      stream d b (pre ++ .packet c (.publish p1) :: (mid ++ .packet c (.publish p2) :: post)) =
+        A ++ w1 :: (M ++ w2 :: P) ∧
+      w1.topic = p1.topic ∧ w1.payload = p1.payload ∧ w2.topic = p2.topic ∧ w2.payload = p2.payload := by
+  intro b1 b2 hpub1 hpub2 halive1 halive2 hsub1 hsub2
+  obtain ⟨heq, hc1, hc2, hn1, hn2⟩ := C17_publisher_order b hI c d p1 p2 pre mid post hqos1 hqos2 hpub1 hpub2
+  have hne1 := hn1 hconn halive1 htopic1 hsub1
+  have hne2 := hn2 hconn halive2 htopic2 hsub2
+  cases hD1 : pubsTo d (onPublish b1 ⟨p1, false⟩).2.2.1 with
+  | nil => exact absurd hD1 hne1
+  | cons w1 r1 =>
+    cases hD2 : pubsTo d (onPublish b2 ⟨p2, false⟩).2.2.1 with
+    | nil => exact absurd hD2 hne2
+    | cons w2 r2 =>
+      rw [hD1, hD2] at heq
+      refine ⟨stream d b pre, w1, r1 ++ stream d (step b1 (.packet c (.publish p1))).1 mid, w2,
+        r2 ++ stream d (step b2 (.packet c (.publish p2))).1 post, ?_, ?_⟩
+      · rw [heq]; simp only [List.cons_append, List.append_assoc]; rfl
+      · have h1 := hc1 w1 (by rw [hD1]; exact List.mem_cons_self)
+        have h2 := hc2 w2 (by rw [hD2]; exact List.mem_cons_self)
+        exact ⟨h1.1, h1.2, h2.1, h2.2⟩
+
+/-- **C17 (d), QoS 2.**  For every session object `r` (the publisher's session:
+`bound b c r` — C02) and every history: `blocks d b r evs` lists, in hand-over
+order, each content taken off `r`'s inbound queue by a PUBREL together with the
+PUBLISH packets written to `d` for it.  (1) Its contents are exactly `handed`,
+the contents C02 counts as handed over; (2) these are an initial segment of the
+contents queued at the start followed by the exchanges opened since, in opening
+order (`C02_exactly_once`): exchanges opened in order are released in that
+order, none skipped; (3) the packets written for them appear in the stream of
+`d` in that same order; (4) each carries the topic and payload of the content
+it was written for (the exchange's first PUBLISH). -/
+theorem C17_publisher_order_qos2 (b : B) (hI : BInv b) (d r : Nat) (evs : List Ev) :
+    (blocks d b r evs).map (·.1) = handed b r evs ∧
+    handed b r evs <+: (pub2inOf b r).map (·.msg) ++ opened b r evs ∧
+    (((blocks d b r evs).map (·.2)).flatten).Sublist (stream d b evs) ∧
+    (∀ x ∈ blocks d b r evs, ∀ w ∈ x.2, w.topic = x.1.topic ∧ w.payload = x.1.payload) :=
+  ⟨blocks_fst hI d r evs, handed_prefix hI evs r, blocks_sublist hI d r evs, blocks_content d b r evs⟩
+
+/-- … for two exchanges: if `p1` was opened before `p2` on session object `r`
+(queue empty at the start) and the hand-overs have got as far as `p2`, then
+`p1` was handed over before it — with exactly the exchanges opened in between
+handed over in between. -/
+theorem C17_qos2_fifo (b : B) (hI : BInv b) (r : Nat) (evs : List Ev) (p1 p2 : Pub) (A M P : List Pub)
+    (hempty : pub2inOf b r = [])
+    (hopened : opened b r evs = A ++ p1 :: (M ++ p2 :: P))
+    (hreached : A.length + M.length + 2 ≤ (handed b r evs).length) :
+    ∃ P', handed b r evs = A ++ p1 :: (M ++ p2 :: P') ∧ P' <+: P := by
+  have hp := handed_prefix hI evs r
+  rw [hempty, hopened, List.map_nil, List.nil_append] at hp
+  have e : A ++ p1 :: (M ++ p2 :: P) = (A ++ p1 :: (M ++ [p2])) ++ P := by simp
+  rw [e] at hp
+  have hL : (A ++ p1 :: (M ++ [p2])) <+: (A ++ p1 :: (M ++ [p2])) ++ P := List.prefix_append _ _
+  have hle : (A ++ p1 :: (M ++ [p2])).length ≤ (handed b r evs).length := by
+    simp only [List.length_append, List.length_cons, List.length_nil]; omega
+  obtain ⟨P', hP'⟩ := List.prefix_of_prefix_length_le hL hp hle
+  refine ⟨P', ?_, ?_⟩
+  · rw [← hP']; simp
+  · rw [← hP'] at hp
+    exact (List.prefix_append_right_inj _).mp hp
+
+/-- One PUBREL on a live connection bound to `r`: what the step writes to `d` is
+exactly, in queue order, the deliveries of the contents it releases (the PUBCOMP
+is not a PUBLISH); and if `d` is a live connection subscribed for each of them,
+each is delivered. -/
+theorem C17_qos2_release_step (b : B) (hI : BInv b) (c d r id : Nat) (hbound : bound b c r = true) :
+    let ev : Ev := .packet c (.pubrel id)
+    (stepBlocks d b r ev).map (·.1) = stepHanded b r ev ∧
+    pubsTo d (step b ev).2 = ((stepBlocks d b r ev).map (·.2)).flatten ∧
+    (d < cbBase → b.alive d = true →
+      (∀ p ∈ stepHanded b r ev, p.topic ≠ [] ∧ Subscribed b d p.topic p.qos) →
+      ∀ x ∈ stepBlocks d b r ev, x.2 ≠ []) := by
+  intro ev
+  obtain ⟨h1, h2⟩ := stepBlocks_pubrel hI hbound d id
+  exact ⟨h1, h2, fun hd ha hs => stepBlocks_nonempty d r ev hd ha hs⟩
+
+/-! Concrete runs.  Connection 1 ("a") subscribes `t` at QoS 2, connection 3
+("c") subscribes `t` at QoS 0, connection 2 ("b") is the publisher. -/
+
+def connectPkt (cid : Bytes) : First :=
+  .connect { protoName := [77, 81, 84, 84], version := 4, clean := true, will := none, clientId := cid }
+
+def demo : B :=
+  (run {} [.first 1 (connectPkt [97]) true, .first 2 (connectPkt [98]) true, .first 3 (connectPkt [99]) true,
+           .packet 1 (.subscribe 1 [([116], 2)]), .packet 3 (.subscribe 1 [([116], 0)])]).1
+
+example : BInv demo := run_inv inv_init _
+
+/-- QoS 1: two publishes of connection 2 with a ping and a publish by connection
+3 in between; connection 1 gets them in the order sent -/
+example :
+    let m1 : Pub := { qos := 1, topic := [116], pktid := 7, payload := [1] }
+    let m2 : Pub := { qos := 1, topic := [116], pktid := 8, payload := [2] }
+    let x  : Pub := { qos := 0, topic := [116], payload := [9] }
+    let evs : List Ev := [.packet 2 (.publish m1), .packet 2 .pingreq, .packet 3 (.publish x), .packet 2 (.publish m2)]
+    stream 1 demo evs = [m1, x, m2] ∧
+    stream 3 demo evs = [{ m1 with qos := 0, pktid := 0 }, x, { m2 with qos := 0, pktid := 0 }] ∧
+    Subscribed demo 1 [116] 1 := by
+  refine ⟨by decide, by decide, [(1, 1), (3, 0)], 1, by decide, by decide⟩
+
+/-- QoS 2: exchanges 5 then 6 opened, PUBREL 6 arrives first (nothing is
+released: 5 is older), then PUBREL 5 releases both, in opening order -/
+example :
+    let m5 : Pub := { qos := 2, topic := [116], pktid := 5, payload := [1] }
+    let m6 : Pub := { qos := 2, topic := [116], pktid := 6, payload := [2] }
+    let evs : List Ev := [.packet 2 (.publish m5), .packet 2 (.publish m6), .packet 2 (.pubrel 6), .packet 2 (.pubrel 5)]
+    bound demo 2 2 = true ∧ opened demo 2 evs = [m5, m6] ∧ handed demo 2 evs = [m5, m6] ∧
+    blocks 1 demo 2 evs = [(m5, [m5]), (m6, [m6])] ∧ stream 1 demo evs = [m5, m6] ∧
+    stream 1 demo (evs.take 3) = [] := by decide
+
+end order
+
 end Mqtt.Properties.C17
